@@ -219,6 +219,7 @@ struct View {
 struct Sess {
     consts: Consts,
     max_channels: usize,
+    filter_kind: usize,
     world: World,
     node: Arc<Node>,
     node_id: PublicKey,
@@ -260,10 +261,33 @@ fn status_code(s: &Status) -> u64 {
     }
 }
 
+
+/// The policy filter a case runs under.  The refusal of a forgotten (or lower) dbid is part of the
+/// property and no filter may turn it into a warning, so the model has no filter input and the
+/// expected answers are the same for all of these.  Everything else the histories request is
+/// accepted under the default filter already, so a filter that demotes tags changes none of it.
+const FILTERS: [&str; 5] = ["default", "permissive", "warn-prefix-policy-channel-", "warn-exact-id-reuse-tag", "shadowed-permissive"];
+
+fn make_filter(kind: usize) -> lightning_signer::policy::filter::PolicyFilter {
+    use lightning_signer::policy::filter::{FilterResult, FilterRule, PolicyFilter};
+    match kind {
+        0 => PolicyFilter::default(),
+        1 => PolicyFilter::new_permissive(),
+        2 => PolicyFilter { rules: vec![FilterRule { tag: "policy-channel-".to_string(), is_prefix: true, action: FilterResult::Warn }] },
+        3 => PolicyFilter { rules: vec![FilterRule { tag: "policy-channel-original-channel-id-reuse".to_string(), is_prefix: false, action: FilterResult::Warn }] },
+        _ => shadowed_permissive_filter(),
+    }
+}
+
 impl Sess {
     fn new(consts: Consts, max_channels: usize) -> Sess {
+        Sess::new_with_filter(consts, max_channels, 0)
+    }
+
+    fn new_with_filter(consts: Consts, max_channels: usize, filter_kind: usize) -> Sess {
         let mut policy = World::default_policy();
         policy.max_channels = max_channels;
+        policy.filter = make_filter(filter_kind);
         let mut seed = [0u8; 32];
         seed[..12].copy_from_slice(b"lightning-2\0");
         let world = World::new(policy, seed, KeyDerivationStyle::Native);
@@ -272,6 +296,7 @@ impl Sess {
         let mut s = Sess {
             consts,
             max_channels,
+            filter_kind,
             world,
             node,
             node_id,
@@ -1245,6 +1270,7 @@ impl Sess {
             "origin": origin,
             "admissible": admissible,
             "max_channels": self.max_channels,
+            "policy_filter": FILTERS[self.filter_kind],
             "steps": self.jsteps,
             "aborted": self.aborted,
             "nontrivial": nontrivial,
@@ -1262,7 +1288,12 @@ impl Sess {
 // ------------------------------------------------------------------ generators
 
 fn run_script(consts: Consts, maxc: usize, ops: &[Op], origin: &str, admissible: bool, stats: &mut BTreeMap<String, u64>) {
-    let mut s = Sess::new(consts, maxc);
+    run_script_under(consts, maxc, 0, ops, origin, admissible, stats)
+}
+
+fn run_script_under(consts: Consts, maxc: usize, filter_kind: usize, ops: &[Op], origin: &str, admissible: bool, stats: &mut BTreeMap<String, u64>) {
+    let mut s = Sess::new_with_filter(consts, maxc, filter_kind);
+    *stats.entry(format!("filter_{}", FILTERS[filter_kind])).or_default() += 1;
     for op in ops {
         if !s.apply(op) {
             break;
@@ -1437,6 +1468,24 @@ fn scripted(args: &Args) {
     for (name, maxc, ops) in scripts.iter() {
         run_script(consts, *maxc, ops, &format!("scripted-{}", name), true, &mut stats);
     }
+    // a forgotten id stays forgotten under every policy filter: a stub forgotten at once, a ready
+    // channel forgotten, buried and pruned by the heartbeat; then the same and lower dbids (both
+    // peers) are asked for again, before and after a restart
+    let reuse: Vec<Op> = vec![
+        New((0, 2)), Forget((0, 2)), New((0, 2)), New((1, 2)), New((0, 1)), Restart, New((0, 2)), New((1, 1)),
+        New((0, 4)), Setup((0, 4), n.clone()), Add(vec![tid(4, F)]), Add(vec![tid(4, M)]), Forget((0, 4)), New((1, 4)), New((0, 3)),
+        Burst(md.saturating_sub(1)), Heartbeat, New((0, 4)), New((1, 4)), New((1, 3)), Restart, New((0, 4)), New((0, 1)), New((1, 2)), Heartbeat,
+    ];
+    for fk in 0..FILTERS.len() {
+        run_script_under(consts, 1000, fk, &reuse, &format!("scripted-forgotten-id-asked-again-{}", FILTERS[fk]), true, &mut stats);
+    }
+    // and the pruning histories themselves under the filters that demote tags
+    for (i, (name, maxc, ops)) in scripts.iter().enumerate() {
+        let fk = 1 + i % 4;
+        if i % 3 == 0 {
+            run_script_under(consts, *maxc, fk, ops, &format!("scripted-{}-{}", name, FILTERS[fk]), true, &mut stats);
+        }
+    }
     emit("CONSTS", json!({"min_depth": consts.min_depth, "channel_stub_prune_blocks": consts.stub_blocks, "regtest_extra": consts.regtest_extra, "repo": repo_dir()}));
     emit("STATS", json!({"domain": "prune-scripted", "stats": stats}));
 }
@@ -1449,7 +1498,10 @@ fn random(args: &Args, malformed: bool) {
     let st = (consts.stub_blocks + consts.regtest_extra) as usize;
     for case in 0..args.n {
         let maxc = if rng.chance(1, 4) { 3 } else { 1000 };
-        let mut s = Sess::new(consts, maxc);
+        // half of the cases run under a filter that demotes tags (or looks as if it did)
+        let fk = if rng.chance(1, 2) { 0 } else { 1 + rng.below(4) as usize };
+        let mut s = Sess::new_with_filter(consts, maxc, fk);
+        *stats.entry(format!("filter_{}", FILTERS[fk])).or_default() += 1;
         let len = 14 + rng.below(24) as usize;
         let mut removed_run = 0;
         let mut blocks_budget: usize = if args.tier == "quick" { 330 } else { 700 };
